@@ -758,6 +758,9 @@ pub fn run_c16(rep: &mut Report, driver: &str, workers: usize, thorough: bool, s
     let mk2 = |i: usize, oracle: &str| format!("parse\t{}\t{}", hexes[i], oracle);
     let model_parse = model_batch(driver, workers, &mk2, n);
     let mut sr = StreamReport::new("renderings", "every tree of the parser's image of depth <= 2 (every constructor in every child position of every constructor; leaves: references, symbols, none, booleans, i128 extremes, floats incl. -0, subnormal, MAX, 1e21, +-inf, decimals of scale 0..28, strings with quotes / backslashes / control / non-ASCII characters) and random depth-3 trees; predicate on the real code alone: Expr::parse(e.to_string()) == e; the model's rendering is compared with the real one (as text, else as token sequences of the model lexer), and the model's parse of the real rendering with the tree", false);
+    // does the model's printed text lex to the token list the round-trip theorem is stated on (G.dispToks)?
+    let mk3 = |i: usize, oracle: &str| format!("disptoks\t{}\t{}", encs[i], oracle);
+    let model_toks = model_batch(driver, workers, &mk3, n);
     let mut lexreqs = vec![];
     let mut lexidx = vec![];
     for i in 0..n {
@@ -773,6 +776,10 @@ pub fn run_c16(rep: &mut Report, driver: &str, workers: usize, thorough: bool, s
             lexreqs.push(format!("lex\t{}", hexes[i]));
             lexreqs.push(format!("lex\t{}", model_disp[i].reply));
             lexidx.push(i);
+        }
+        sr.hist("proof_printer", if model_toks[i].unanswered { "unanswered" } else if model_toks[i].reply == "(toks-same)" { "text lexes to dispToks" } else { "differs" });
+        if !model_toks[i].unanswered && model_toks[i].reply != "(toks-same)" {
+            rep.add_finding(Finding { kind: "model-disagreement".into(), stream: "renderings".into(), case: format!("disptoks\t{}", encs[i]), human: texts[i].chars().take(160).collect(), impl_out: texts[i].clone(), model_out: model_toks[i].reply.clone(), predicate: "the printed text must lex to the token list the round-trip theorem is stated on (G.dispToks)".into(), signature: "C16 proof-printer".into() });
         }
         if !model_parse[i].unanswered && model_parse[i].reply != want {
             rep.add_finding(Finding { kind: "model-disagreement".into(), stream: "renderings".into(), case: format!("parse\t{}", hexes[i]), human: texts[i].chars().take(160).collect(), impl_out: reparsed[i].clone(), model_out: model_parse[i].reply.clone(), predicate: "the reference parser must parse the real rendering to the same tree".into(), signature: "C16 model-parse".into() });
